@@ -45,6 +45,7 @@ LEVEL = {
     "technique": "static analysis: origin dataflow (callable -> awaitify -> await; iterable -> aiter) and return-kind lattice",
 }
 LEVEL["decided"] += " (R03.7) an awaitified callable is called and its result awaited under the same handlers and cleanups (a synchronous callable fails at the call, an asynchronous one at the await); (R03.8) any_iter's flavour table (R19.2, shared); (R03.9) awaitify wraps user callables only, never a plain library function whose result is a user value; the synchronous-iterable wrapper is decided as a table."
+LEVEL["decided"] += ' (R03.10) no attribute a user callable need not have is read unconditionally; R03.2 also covers truth tests of the elements of a *iterables container.'
 
 # raw calls of user objects that are correct by documented contract (unit -> reason)
 BY_CONTRACT = {
